@@ -22,6 +22,9 @@ SPEC = {
 
 
 def ref_corr(A, ts, dt):
+    # the definition is over the reals / complex numbers: narrow integer series are widened first (the reference itself overflowed in
+    # int8 before this line existed -- a harness error seen with VERIF_SEED=2, 3, 7, not a defect of the code)
+    A = np.asarray(A, dtype=np.complex128 if np.iscomplexobj(A) else np.float64)
     T = A.shape[0]
     linear = T >= 2 and len(set(np.diff(ts).tolist())) == 1
     rank = A.ndim - 2
